@@ -459,7 +459,9 @@ float64_t igris_atof64(const char *nptr, char **endptr)
         {
             while ((*eptr >= '0' && *eptr <= '9'))
             {
-                e_val = e_val * 10 + (*eptr - '0');
+                // saturate: beyond this the result is 0 or inf anyway
+                if (e_val < 100000)
+                    e_val = e_val * 10 + (*eptr - '0');
                 eptr++;
             }
             d += e_val * e_sign;
